@@ -164,6 +164,72 @@ fn dec_full<T: Readable>(bytes: &[u8], v: u32) -> Result<(T, usize), String> {
 	}
 }
 
+/// the same decode through the codec's reader: `BufReader` over a `bytes::Bytes` (p2p/src/codec.rs)
+fn dec_buf<T: Readable>(bytes: &[u8], v: u32) -> Result<(T, usize), String> {
+	let mut b = bytes::Bytes::copy_from_slice(bytes);
+	let r = catch(move || {
+		let mut rdr = ser::BufReader::new(&mut b, ProtocolVersion(v));
+		let r = T::read(&mut rdr);
+		let n = rdr.bytes_read() as usize;
+		(r, n)
+	});
+	match r {
+		Ok((Ok(x), n)) => Ok((x, n)),
+		Ok((Err(e), _)) => Err(err_name(&e)),
+		Err(msg) => Err(format!("panic({})", one_line(&msg).replace(' ', "_"))),
+	}
+}
+
+/// … and through `StreamingReader` (the reader of the node's data files)
+fn dec_stream<T: Readable>(bytes: &[u8], v: u32) -> Result<(T, usize), String> {
+	let b2 = bytes.to_vec();
+	let r = catch(move || {
+		let mut src = &b2[..];
+		let r = {
+			let mut rdr = ser::StreamingReader::new(&mut src, ProtocolVersion(v));
+			T::read(&mut rdr)
+		};
+		(r, src.len())
+	});
+	match r {
+		Ok((Ok(x), rest)) => Ok((x, bytes.len().saturating_sub(rest))),
+		Ok((Err(e), _)) => Err(err_name(&e)),
+		Err(msg) => Err(format!("panic({})", one_line(&msg).replace(' ', "_"))),
+	}
+}
+
+/// The READER dimension: every input of every `dec_case` (all types x versions x mutation streams) is
+/// decoded through all three `Reader` implementations of the tree; "accepted by one iff accepted by all,
+/// same value (compared through its re-encoding), same bytes consumed, same error kind". A
+/// reader-specific behaviour (an overridden trait method, another cap, another refusal) is an oracle
+/// failure with the input. `StreamingReader` has no `read_fixed_bytes` cap by design: it is not run on
+/// inputs the capped readers refuse with `TooLargeReadErr` (it would request what the bytes announce).
+fn readers_agree<T: Ty>(cx: &mut Ctx, v: u32, bytes: &[u8]) {
+	fn summary<T: Ty>(r: Result<(T, usize), String>, v: u32, with_consumed: bool) -> String {
+		match r {
+			Ok((x, n)) => format!("ok {} {}", if with_consumed { n.to_string() } else { "-".to_string() }, show_enc(&enc_at(&x, v))),
+			Err(e) => format!("err {}", e),
+		}
+	}
+	let wc = !T::READER_REST_VARIES;
+	let bin = summary::<T>(dec_full::<T>(bytes, v), v, wc);
+	let buf = summary::<T>(dec_buf::<T>(bytes, v), v, wc);
+	if bin != buf {
+		let cut = |s: &String| if s.len() > 300 { format!("{}…", &s[..300]) } else { s.clone() };
+		cx.oracle_fail(format!("{} readers disagree (reader-specific behaviour): BinReader -> {} but BufReader -> {} on {} [version {}]", T::NAME, cut(&bin), cut(&buf), shown(bytes), v));
+	}
+	if bin != "err TooLargeReadErr" {
+		let st = summary::<T>(dec_stream::<T>(bytes, v), v, wc);
+		if bin != st {
+			let cut = |s: &String| if s.len() > 300 { format!("{}…", &s[..300]) } else { s.clone() };
+			cx.oracle_fail(format!("{} readers disagree (reader-specific behaviour): BinReader -> {} but StreamingReader -> {} on {} [version {}]", T::NAME, cut(&bin), cut(&st), shown(bytes), v));
+		}
+		cx.stat(format!("readers x3 {}", if bin.starts_with("ok") { "ok" } else { "err" }));
+	} else {
+		cx.stat("readers x2 (TooLargeReadErr: the uncapped StreamingReader is not run)".to_string());
+	}
+}
+
 /// `hash()` of an implementation value under `catch`
 fn hash_of<T: Ty>(x: &T) -> Result<Option<String>, String> {
 	catch(AssertUnwindSafe(|| x.hash_hex())).map_err(|m| format!("panic({})", one_line(&m)))
@@ -229,6 +295,9 @@ trait Ty: Readable + Writeable + Sized {
 	/// (false for Transaction: its hash covers the `Inputs` variant, and the property only names
 	/// headers, kernels, outputs and blocks)
 	const HASH_STABLE: bool = true;
+	/// does the number of bytes a FAILED / open-ended read leaves behind depend on the reader? (the
+	/// count-less `Vec<T>` loop and `BanReason`'s swallowed short read): only verdict and value are compared
+	const READER_REST_VARIES: bool = false;
 	fn hash_hex(&self) -> Option<String>;
 	/// value equality as the property means it, `self` = original, `d` = decoded at version `v`
 	fn same(&self, d: &Self, v: u32) -> bool;
@@ -821,6 +890,7 @@ fn dec_case<T: Ty>(
 ) -> Option<T> {
 	set_env(chain, nrd);
 	cx.flush_gen_fails();
+	readers_agree::<T>(cx, v, bytes);
 	let lhs = format!(
 		"ser dec {} {} {} {} {}",
 		T::NAME,
@@ -2902,6 +2972,7 @@ impl Ty for Pong {
 }
 
 impl Ty for BanReason {
+	const READER_REST_VARIES: bool = true;
 	const NAME: &'static str = "BanReason";
 	fn hash_hex(&self) -> Option<String> {
 		None
@@ -4542,6 +4613,7 @@ impl Ty for CommitPos {
 
 /// the spent index of a block (`ChainStore::save_spent_index` / `get_spent_index`)
 impl Ty for Vec<CommitPos> {
+	const READER_REST_VARIES: bool = true;
 	const NAME: &'static str = "SpentIndex";
 	fn hash_hex(&self) -> Option<String> {
 		None
@@ -4570,6 +4642,7 @@ impl Ty for Vec<CommitPos> {
 /// `Vec<T>` of an item type whose reader can fail with something else than `UnexpectedEof`
 /// (the generic `impl Readable for Vec<T>` must hand such an error on, wherever the item sits)
 impl Ty for Vec<OutputIdentifier> {
+	const READER_REST_VARIES: bool = true;
 	const NAME: &'static str = "OutputIdVec";
 	fn hash_hex(&self) -> Option<String> {
 		None
